@@ -706,6 +706,15 @@ func (u *connectStreamingUnmarshaler) Unmarshal(message any) *Error {
 	if err := json.Unmarshal(env.Data.Bytes(), &end); err != nil {
 		return errorf(CodeInternal, "unmarshal end stream message: %w", err)
 	}
+	for name, value := range end.Trailer {
+		// The metadata keys come from a JSON object, so net/http hasn't
+		// canonicalized them for us.
+		canonical := http.CanonicalHeaderKey(name)
+		if name != canonical {
+			delete(end.Trailer, name)
+			end.Trailer[canonical] = append(end.Trailer[canonical], value...)
+		}
+	}
 	u.trailer = end.Trailer
 	u.endStreamErr = (*Error)(end.Error)
 	if u.endStreamErr != nil && u.endStreamErr.code == 0 {
